@@ -64,6 +64,12 @@ GUARDS = {
     'FRAME_STATS.frame_avg_wavelet_energy': 'PictureParentControlSet.first_pass_mutex',
 }
 
+# globals that only silence a repeated diagnostic line (their race cannot reach the coded output)
+DIAGNOSTIC_ONCE_FLAGS = {
+    'g_add_mem_entry_warning': 'once-flag of the debug-build memory tracker (DEBUG_MEMORY_USAGE, not compiled in the production configuration): only suppresses a repeated log line',
+    'g_remove_mem_entry_warning': 'once-flag of the debug-build memory tracker (DEBUG_MEMORY_USAGE, not compiled in the production configuration): only suppresses a repeated log line',
+}
+
 # (lock class, blocking callee) pairs that exist today and were confirmed by reading.
 BLOCK_UNDER_LOCK_OK = {
     # recon_output takes a buffer from the recon output pool while counting recon frames; the pool's releaser
@@ -310,6 +316,9 @@ def run(P, rep, tier):
     for g, ws in sorted(writes.items()):
         if g in ('g_log_file', 'g_log_level'):
             rep.exempt('C04.KGLOB', g, 'process-wide logging configuration (by design)')
+            continue
+        if g in DIAGNOSTIC_ONCE_FLAGS:
+            rep.exempt('C04.KGLOB', g, DIAGNOSTIC_ONCE_FLAGS[g])
             continue
         common = None
         for f, ev, held in ws:
